@@ -86,7 +86,7 @@ fn run_check(property: &str, tier: &str) -> i32 {
     let pr = match props::build(property, tier) { Some(p) => p, None => { eprintln!("unknown property {}", property); return 2; } };
     let known = load_known(property);
     let ctx = CheckCtx { property: property.to_string(), tier: tier.to_string(), seed, level: pr.level, threads: threads(), known: known.clone(), t0 };
-    let deadline: f64 = std::env::var("VERIF_DEADLINE_S").ok().and_then(|s| s.parse().ok()).unwrap_or(if tier == "quick" { 600.0 } else { 6.0 * 3600.0 });
+    let deadline: f64 = std::env::var("VERIF_DEADLINE_S").ok().and_then(|s| s.parse().ok()).unwrap_or(if tier == "quick" { 600.0 } else { 3600.0 });
     let mut ex = Explorer::new(ctx.threads, deadline, known_matcher(&known));
     ex.sample_every = 0;
     if property == "C03" { ex.panic_to_violation = Some(c03::panic_violation); }
